@@ -59,6 +59,7 @@ const (
 	StmtExecute
 	StmtDeallocate
 	StmtKill
+	StmtLoad
 )
 const (
 	eofChar = 0x100
@@ -136,6 +137,8 @@ func Preview(sql string) int {
 		return StmeSRollback
 	case "kill":
 		return StmtKill
+	case "load":
+		return StmtLoad
 	}
 
 	return StmtUnknown
